@@ -75,6 +75,10 @@ func (c *compiler) compile() (string, error) {
 }
 
 func (c *compiler) write(bb *strings.Builder, i interface{}) {
+	if rv := reflect.ValueOf(i); rv.Kind() == reflect.Ptr && rv.IsNil() {
+		return // a typed nil pointer prints nothing, like nil
+	}
+
 	switch t := i.(type) {
 	case time.Time:
 		if dtf, ok := c.ctx.Value("TIME_FORMAT").(string); ok {
